@@ -253,6 +253,10 @@ func caseSize(c *SimCase) int {
 func (w *Worker) account(c *SimCase, st *CaseStats) {
 	o := w.Out
 	o.Cases++
+	if st.Rejected && c.Mutated != "" {
+		o.Extra["mutants_rejected_by_real_checker"]++
+		return
+	}
 	if st.Rejected {
 		o.Rejected++
 		if o.Extra["rejected_samples"] < 2 {
@@ -304,6 +308,12 @@ func (w *Worker) account(c *SimCase, st *CaseStats) {
 	}
 	if c.Mutated != "" {
 		o.Extra["mutants_accepted_and_run"]++
+	}
+	if c.StageRen != nil {
+		o.Extra["respelled_programs"]++
+		if c.StageRen.AliasShadows > 0 {
+			o.Extra["respelled_with_alias_shadowing_payload"]++
+		}
 	}
 	for i, r := range st.Runs {
 		o.Runs++
